@@ -6,6 +6,7 @@ pool objects (and a few scalars) as arguments, plus the module-level functions o
 """
 from __future__ import annotations
 
+import functools
 import inspect
 import itertools
 
@@ -212,7 +213,7 @@ def public_members(obj):
                 continue
             if name.startswith("_") and not (name.startswith("__") and name.endswith("__")):
                 continue
-            if isinstance(raw, property):
+            if isinstance(raw, (property, functools.cached_property)):
                 out.append((name, "prop"))
             elif isinstance(raw, (classmethod, staticmethod)):
                 continue
